@@ -3,6 +3,7 @@ package props
 import (
 	"fmt"
 	"math"
+	"strings"
 
 	"github.com/sahandsafizadeh/qeep/component/layers"
 	"github.com/sahandsafizadeh/qeep/tensor"
@@ -101,7 +102,13 @@ func (c16) Generate(r *sim.Rand, tier string) *sim.Scenario {
 			// second and later use of the SAME parameter object: reset it in place
 			sc.Steps = append(sc.Steps, sim.Step{C: 1, Op: "reset", N: r.Intn(2), B: r.Bool(0.85), Out: -1})
 		case r.Bool(0.08):
-			sc.Steps = append(sc.Steps, sim.Step{C: 0, Op: "bad", Tag: c16Bad[r.Intn(len(c16Bad))], N: r.Range(1, 3), Out: -1})
+			if r.Bool(0.5) {
+				// a rejected tensor-level call (or optimizer step) with a live parameter as operand
+				tag, n := pickBad(r, []int{O})
+				sc.Steps = append(sc.Steps, sim.Step{C: 0, Op: "bad", Tag: "cat:" + tag, N: n, I: []int{r.Intn(2)}, Out: -1})
+			} else {
+				sc.Steps = append(sc.Steps, sim.Step{C: 0, Op: "bad", Tag: c16Bad[r.Intn(len(c16Bad))], N: r.Range(1, 3), Out: -1})
+			}
 		case len(pending) > 0 && r.Bool(0.5):
 			i := r.Intn(len(pending))
 			h := pending[i]
@@ -540,6 +547,27 @@ func (prop c16) Execute(sc *sim.Scenario) *sim.Outcome {
 			}
 		case "bad":
 			before := sim.DeepFPAny(fc)
+			if strings.HasPrefix(st.Tag, "cat:") {
+				kind := strings.TrimPrefix(st.Tag, "cat:")
+				if badIndexOf(kind) < 0 || len(st.I) != 1 {
+					out.Discard = "malformed"
+					return out
+				}
+				oracle, msg, _, _ := badVerdict(kind, st.N, *ptr[st.I[0]%2])
+				out.Faults["invalid-call/"+kind]++
+				if oracle != "" {
+					out.Fail(oracle, "%s: %s", where, msg)
+					return fin()
+				}
+				if sim.DeepFPAny(fc) != before {
+					out.Fail("rejected-call-changed-state", "%s: a rejected call with parameter %d as operand changed the layer or its parameters", where, st.I[0]%2)
+					return fin()
+				}
+				if !checkPointers(where, false) || !checkGrads(where) {
+					return fin()
+				}
+				break
+			}
 			var err error
 			var y tensor.Tensor
 			okx := sim.Leaf([]int{st.N, D}, make([]float64, st.N*D), false)
